@@ -787,6 +787,35 @@ func c17EntOracle(r *Rng, tier string, rep *Report) {
 			ms = append(ms, mm{&c17Maps[i], e, rv})
 		}
 	}
+	// the maps used here must satisfy the hypothesis of the theorems (maps_ok in Normalise/Spec.v): no replacement
+	// longer than a reference it can stand for, and must be consistent with HTML (a name decodes like its replacement)
+	for _, m := range ms {
+		minRef := func(c byte) int {
+			switch {
+			case c < 10:
+				return 4
+			case c < 100:
+				return 5
+			}
+			return 6
+		}
+		for c, q := range m.r {
+			if len(q) > minRef(c) || stdhtml.UnescapeString(string(q)) != string([]byte{c}) {
+				rep.Violate("maps:"+m.m.name+":rev:"+string([]byte{c}), fmt.Sprintf("harness map %s: reverse entry %q -> %q is longer than the shortest reference or decodes differently", m.m.name, c, q), nil)
+			}
+		}
+		for name, r := range m.e {
+			bad := len(r) > len(name)+2 || stdhtml.UnescapeString("&"+name+";") != stdhtml.UnescapeString(string(r))
+			if len(r) == 1 {
+				if q, ok := m.r[r[0]]; ok && len(q) > len(name)+2 {
+					bad = true
+				}
+			}
+			if bad {
+				rep.Violate("maps:"+m.m.name+":"+name, fmt.Sprintf("harness map %s: entry %q -> %q is longer than the reference or decodes differently", m.m.name, name, r), nil)
+			}
+		}
+	}
 	re := func(m mm, b []byte) []byte { return parse.ReplaceEntities(exact(b), m.e, m.r) }
 	dec := htmlDecode
 	check := func(m mm, b []byte) {
